@@ -4,8 +4,8 @@ SPEC = {
     "targets": ["Properties/C01.vo", "Run/C01.vo"],
     "theorems": {"Properties.C01": [
         "C01_sound_partial", "C01_rule_sound", "C01_rule_sound_merge", "C01_plain_fragment_inside",
-        "C01_mask_id", "C01_key_tables", "C01_fixed_witnesses_blocked", "C01_sound_refuted_null_tag_text", "C01_sound_refuted_group_labels_alias", "C01_sound_refuted_double_merge",
-        "C01_sound_refuted_merge_not_alias", "C01_sound_refuted_tag_kind", "C01_nonvacuous", "C01_nonvacuous_alias", "C01_nonvacuous_merge"]},
+        "C01_mask_id", "C01_key_tables", "C01_fixed_witnesses_blocked", "C01_fixed_witnesses_blocked_round3",
+        "C01_sound_refuted_merge_not_alias", "C01_nonvacuous", "C01_nonvacuous_alias", "C01_nonvacuous_merge"]},
     "harness_args": lambda tier: (["C01", "--n", 300, "--cat", 40, "--stress", 4] if tier == "quick"
                                   else ["C01", "--n", 8000, "--cat", -1, "--stress", 40]),
     "search_args": lambda tier: ["C01", "--n", 3000, "--cat", -1, "--stress", 16],
